@@ -684,6 +684,15 @@ func (h *hist) opCall() {
 			h.res.Probes.Inc("new_entry_point_called")
 		}
 	}
+	if entry == EUnmarshalBinary && ty != TDate && h.repeat == nil && t.Bool(3, 4) {
+		// a binary form an edited tree has given the type: frames come from its own MarshalBinary
+		// (so they are structurally right) and are then damaged like any other record
+		if bm, ok := genValue(t, ty).(encoding.BinaryMarshaler); ok {
+			if b, err := bm.MarshalBinary(); err == nil {
+				rec = Record{ty, RBinary, b, typeNames[ty] + ".MarshalBinary"}
+			}
+		}
+	}
 	fault := h.pickFault()
 	input := h.readRecord(ty, fault, rec)
 	if h.repeat != nil {
